@@ -1,6 +1,6 @@
 # C08 - every point is routed to exactly one, well-defined shard.
 # spec: specs/routing (Routing, RoutingGen); harness: harness/coordinator/zz_verif_routing_test.go
-import json
+import json, os
 from vcheck import Infra, log
 
 PKG = "coordinator"
@@ -64,21 +64,23 @@ def run(ctx):
     codes, hm = hash_tables()
     quick = ctx.quick()
 
-    if not ctx.replay:
+    # VERIF_SKIP_MC=1 (development aid, e.g. mutation runs on the Go code): skip the model-only TLC runs
+    if not ctx.replay and not os.environ.get("VERIF_SKIP_MC"):
         # 1. the model of MapShards satisfies the property on every reachable metadata state, for every batch
-        c = dict(base_consts(codes), MaxDel=0, MaxBatch=3, MaxBatchCut=pick(ctx, 2, 3), TruncTimes={1, 2, 4}, Cuts=pick(ctx, {2}, {1, 3}))
+        #    (TLC needs ~0.4 ms per MapShards evaluation: batches of 3 on few states, batches of 2 on more)
+        c = dict(base_consts(codes), MaxDel=0, MaxBatch=3, MaxBatchCut=pick(ctx, 2, 3), CreateTimes=pick(ctx, {1, 4}, {0, 1, 2, 3, 4, 5}),
+                 TruncTimes=pick(ctx, {2}, {1, 2, 4}), Cuts=pick(ctx, {2}, {1, 3}))
         ctx.write_cfg(sd, "MC3.cfg", "Spec", c, INV + pick(ctx, [], ["C08_LazyEqualsPre"]))
-        ctx.tlc_check(sd, "Routing", "MC3.cfg", workers=8, timeout=900, coverage=not quick)
-        # shards per group 1, 2, 3 (nodes x replication), extreme timestamps in the history
+        ctx.tlc_check(sd, "Routing", "MC3.cfg", workers=8, timeout=2400, coverage=not quick)
+        c = dict(base_consts(codes), MaxGroups=pick(ctx, 2, 3), MaxDel=0, MaxBatch=2, MaxBatchCut=2, TruncTimes=pick(ctx, {1, 2, 4}, {1, 2, 4, 5}),
+                 Cuts={2})
+        ctx.write_cfg(sd, "MC2.cfg", "Spec", c, INV)
+        ctx.tlc_check(sd, "Routing", "MC2.cfg", workers=8, timeout=2400)
+        # shards per group 1, 2, 3 (nodes x replication), extreme timestamps in the history, deleted groups
         c = dict(base_consts(codes), NodeCfgs=pick(ctx, {11, 21, 32}, {11, 21, 31, 32, 42}), MaxBatch=pick(ctx, 1, 2), MaxBatchCut=1,
-                 MaxDel=pick(ctx, 0, 1), CreateTimes=pick(ctx, {1, 4}, {0, 2, 3, 5}), CreateExtremes=True,
-                 TruncTimes=pick(ctx, {2, 5}, {1, 3, 4}), Cuts={2})
+                 MaxDel=pick(ctx, 0, 1), CreateTimes={1, 4}, CreateExtremes=True, TruncTimes=pick(ctx, {2}, {2, 5}), Cuts={2})
         ctx.write_cfg(sd, "MCN.cfg", "Spec", c, INV)
-        ctx.tlc_check(sd, "Routing", "MCN.cfg", workers=8, timeout=900)
-        if not quick:
-            c = dict(base_consts(codes), MaxGroups=3, MaxDel=1, MaxBatch=2, Cuts={1, 4})
-            ctx.write_cfg(sd, "MC2.cfg", "Spec", c, INV)
-            ctx.tlc_check(sd, "Routing", "MC2.cfg", workers=8, timeout=2400)
+        ctx.tlc_check(sd, "Routing", "MCN.cfg", workers=8, timeout=2400)
         # negative controls: with the pinned code's deviations switched on the same formulas must fail
         for dev, inv in (('"truncIgnored"', "C08_DesignatedGroup"), ('"lateCutoff"', "C08_DroppedIffTooOld")):
             c = dict(base_consts(codes), MaxDel=0, MaxBatch=2, Dev=[dev])
@@ -96,14 +98,20 @@ def run(ctx):
         scen = []
 
         def add(behs, mb, mbc):
-            for b in behs:
+            for i, b in enumerate(behs):
                 b["mb"], b["mbc"] = mb, mbc
+                # quick tier: batches of 3 for every state that has a truncated live group (where the order of the
+                # per-request list matters) and for every 4th other state; batches of 2 elsewhere
+                if quick and mb == 3 and i % 4 != 0 and not any(g["tr"] and not g["del"] for g in b["groups"]):
+                    b["mb"] = 2
+                if quick and mbc == 2 and i % 2 != 0:
+                    b["mbc"] = 1
             scen.extend(behs)
         # every metadata state reachable with <= 2 (thorough: 3) groups, one shortest history each;
-        # every batch of <= 3 boundary instants in every order; every cut-off with batches of <= 2 (3)
+        # every batch of <= 3 boundary instants in every order; every cut-off with batches of <= 2
         g = dict(base_consts(codes), MaxGroups=pick(ctx, 2, 3), GenLen=0)
         ctx.write_cfg(sd, "G1.cfg", "GSpec", g, extra="VIEW GView\nINVARIANT Emit")
-        add(ctx.tlc_generate(sd, "RoutingGen", "G1.cfg", exhaustive=True, timeout=2400), 3, pick(ctx, 2, 3))
+        add(ctx.tlc_generate(sd, "RoutingGen", "G1.cfg", exhaustive=True, timeout=2400), 3, 2)
         # other node counts / replication factors (shards per group 1, 2, 3), extreme timestamps in the history
         g = dict(base_consts(codes), NodeCfgs=pick(ctx, {11, 21, 32}, {11, 21, 32, 42}), CreateTimes={1, 4}, CreateExtremes=True,
                  TruncTimes=pick(ctx, {2, 5}, {0, 2, 5}), GenLen=0)
@@ -113,7 +121,8 @@ def run(ctx):
         g = dict(base_consts(codes), NodeCfgs={31, 21}, MaxGroups=5, MaxDel=2, GenLen=9)
         ctx.write_cfg(sd, "G3.cfg", "GSpec", g, extra="INVARIANT Emit")
         n3 = pick(ctx, 150, 2500)
-        add(ctx.tlc_generate(sd, "RoutingGen", "G3.cfg", num=n3, depth=10)[:n3], 3, 2)
+        # in simulation TLC evaluates Emit on every successor of the last state: ~10 scenarios per requested trace
+        add(ctx.tlc_generate(sd, "RoutingGen", "G3.cfg", num=n3 // 6, depth=10)[:n3], 3, 2)
         ctx.cov["exhaustive"] = True
         inp["scenarios"] = scen
 
@@ -130,7 +139,7 @@ def run(ctx):
     ctx.cov["traces_validated_against_impl"] += done.get("scenarios", 0)
     extra = {k: done.get(k, 0) for k in ("scenarios", "steps", "batches", "points", "dropped", "groups_created_by_writes",
                                          "points_beyond_truncation", "cut_cases")}
-    if not ctx.replay and (extra["points_beyond_truncation"] == 0 or extra["dropped"] == 0 or extra["groups_created_by_writes"] == 0):
+    if not ctx.replay and not done.get("mismatches") and (extra["points_beyond_truncation"] == 0 or extra["dropped"] == 0 or extra["groups_created_by_writes"] == 0):
         raise Infra("vacuous replay: %s" % extra)
     return ctx.finish("model_checking", extra, assumptions=[
         "the writer's MetaClient is a thin struct over a real meta.Data that performs meta.Client.CreateShardGroup's steps without the raft round trip; metadata replication is C07's subject",
